@@ -547,22 +547,40 @@ func (s *configurationStore) getApplied(ctx context.Context, id configapi.Config
 }
 
 func (s *configurationStore) store(ctx context.Context, store _map.Map[string, *configapi.PathValue], values map[string]*configapi.PathValue) error {
-	prunedValues := tree.PrunePathMap(values, true)
-	transaction := store.Transaction(ctx)
-	for _, pv := range values {
-		entry, err := store.Get(ctx, pv.Path)
+	// The given values are the whole content of the map: what they no longer hold (a tombstone that was lifted
+	// because a descendant was set again, a sub-tree that was pruned) must leave the map, too
+	prunedValues := make(map[string]*configapi.PathValue)
+	for _, pv := range tree.PrunePathMap(values, true) {
+		prunedValues[pv.Path] = pv
+	}
+	stream, err := store.List(ctx)
+	if err != nil {
+		return errors.FromAtomix(err)
+	}
+	existing := make(map[string]*_map.Entry[string, *configapi.PathValue])
+	for {
+		entry, err := stream.Next()
+		if err == io.EOF {
+			break
+		}
 		if err != nil {
-			err = errors.FromAtomix(err)
-			if !errors.IsNotFound(err) {
-				return err
-			}
-			if _, ok := prunedValues[pv.Path]; ok {
-				transaction.Insert(pv.Path, pv)
-			}
-		} else if _, ok := prunedValues[pv.Path]; !ok {
-			transaction.Remove(pv.Path, _map.IfVersion(entry.Version))
-		} else if pv.Index != entry.Value.Index {
-			transaction.Update(pv.Path, pv, _map.IfVersion(entry.Version))
+			return errors.FromAtomix(err)
+		}
+		existing[entry.Key] = entry
+	}
+
+	transaction := store.Transaction(ctx)
+	for key, entry := range existing {
+		if _, ok := prunedValues[key]; !ok {
+			transaction.Remove(key, _map.IfVersion(entry.Version))
+		}
+	}
+	for key, pv := range prunedValues {
+		entry, ok := existing[key]
+		if !ok {
+			transaction.Insert(key, pv)
+		} else if pv.Index != entry.Value.Index || pv.Deleted != entry.Value.Deleted {
+			transaction.Update(key, pv, _map.IfVersion(entry.Version))
 		}
 	}
 	if _, err := transaction.Commit(); err != nil {
